@@ -16,6 +16,10 @@ import (
 // legitimately leave goroutines behind; only C15 asks about them, explicitly).
 func RunInBubble(s *spec.RunSpec, outPath string, wallStart time.Time) {
 	res := &spec.RunResult{Property: s.Property, Seed: s.Seed, Faults: map[string]int{}, Probes: map[string]int{}}
+	writeResultAndExit = func(r *spec.RunResult) {
+		writeResult(outPath, r)
+		os.Exit(0)
+	}
 	finish := func(w *World) {
 		if w != nil {
 			w.collect()
@@ -35,6 +39,8 @@ func RunInBubble(s *spec.RunSpec, outPath string, wallStart time.Time) {
 	}
 	scen(s, res, finish)
 }
+
+var writeResultAndExit func(*spec.RunResult)
 
 type scenarioFn func(s *spec.RunSpec, res *spec.RunResult, finish func(*World))
 
